@@ -46,7 +46,7 @@ def main():
     rc, out = sh(f"git -C /repo worktree add --detach {wt} HEAD")
     assert rc == 0, out
     try:
-        env = dict(ENV, PYTHONPATH=wt)
+        env = dict(ENV, PYTHONPATH=wt, NUMBA_NUM_THREADS="2", OMP_NUM_THREADS="2")
         rc, out = sh(f"/venv/bin/python {dst}/demo.py", cwd=wt, env=env)
         conf["demo_without_change"] = {"exit": rc, "tail": out[-400:]}
         rc, out = sh(f"git apply {dst}/patch.diff", cwd=wt)
@@ -62,7 +62,7 @@ def main():
                 rc, out = sh(
                     "/venv/bin/python -m pytest -q -p no:cacheprovider -n 6 --timeout=900 glotaran benchmark", cwd=wt, env=env
                 )
-                tail = out.strip().splitlines()[-1] if out.strip() else ""
+                tail = ([l for l in out.splitlines() if " passed" in l or " failed" in l] or [""])[-1]
                 failed = [l for l in out.splitlines() if l.startswith("FAILED")]
                 conf["suite_with_change"] = {"summary": tail, "failed": failed, "wall_s": round(time.time() - t)}
             # run the property's quick check(s) from a snapshot of /verif against the patched scratch tree
